@@ -1,4 +1,5 @@
 """C01 (every non-blank character preserved, in order) and C07 (verbatim regions) — structural clauses."""
+import re
 from facts import norm, Origins
 from progress import dominating_variant_facts, bfs_path
 from table import canon_place
@@ -426,24 +427,7 @@ def check_c07(prog, rep, tier, cfg):
         ig = [c.t.get("callee_args", [None, None])[1] for c in mf.calls() if (c.callee or "").endswith("AddTokenIgnorer::token_ignorer")]
         want = {"pasfmt_core::rules::formatting_toggle::FormattingToggler", "pasfmt_core::rules::ignore_asm_instructions::IgnoreAsmIstructions"}
         rep.check(set(map(norm, ig)) == want, R, "ignorers-registered", "registered token ignorers: %s" % ig, instance={"ignorers": sorted(short(norm(x)) for x in ig)})
-    ia = "<pasfmt_core::rules::ignore_asm_instructions::IgnoreAsmIstructions as pasfmt_core::traits::TokenIgnorer>::ignore_tokens"
-    b = prog.body(ia)
-    if rep.check(b is not None, R, "anchor:IgnoreAsmIstructions", "IgnoreAsmIstructions::ignore_tokens not found"):
-        its = sorted(c.callee.split("::")[-1] for c in b.calls() if (c.callee or "").startswith("core::iter::") or (c.callee or "").startswith("core::slice::"))
-        rep.check(its == ["filter", "for_each", "iter"], R, "asm:iter.filter.for_each", "IgnoreAsmIstructions iterates lines with %s" % its, instance={"chain": its})
-        f0 = prog.body(ia + "::{closure#0}")
-        f1 = prog.body(ia + "::{closure#1}")
-        f2 = prog.body(ia + "::{closure#1}::{closure#0}")
-        ok = f0 is not None and f1 is not None and f2 is not None
-        if ok:
-            # filter closure: line_type == AsmInstruction
-            consts = [v for a, v in enum_variants_mentioned(f0) if a.endswith("LogicalLineType")]
-            ok &= consts == ["AsmInstruction"] and any((c.target or "").endswith("PartialEq>::eq") or (c.callee or "") == "core::cmp::PartialEq::eq" for c in f0.calls())
-            inner = sorted(c.callee.split("::")[-1] for c in f1.calls() if not (c.callee or "").endswith("Deref::deref"))
-            ok &= inner == ["for_each", "get_tokens", "iter"]
-            ok &= [c.callee for c in f2.calls()] == [FMT + "TokenMarker::mark"]
-        rep.check(ok, R, "asm:marks-every-token-of-asm-lines", "IgnoreAsmIstructions no longer marks every token of every AsmInstruction line (and only those)",
-                  instance={"filter": "line_type == AsmInstruction", "inner": "get_tokens().iter().for_each(mark)"})
+    asm_ignorer_marks(prog, rep, R, "C07.i")
     fl = prog.body("pasfmt_core::rules::optimising_line_formatter::InternalOptimisingLineFormatter::format_line")
     if rep.check(fl is not None, R, "anchor:format_line", "format_line not found"):
         from panic import dominating_conditions
@@ -636,6 +620,88 @@ def toggle_vocabulary(prog, mod="pasfmt_core::rules::formatting_toggle::"):
                 for k in (kinds or {"unused"}):
                     vocab.add((w, k))
     return vocab
+
+
+def _subterms(x):
+    """all sub-expressions `F(a,..)` / `F{a,..}` of a canonical expression text, as (name, [args])"""
+    from table import split_call
+    out, st = [], [x]
+    while st:
+        e = st.pop()
+        e2 = e
+        if e2.endswith("}") and "{" in e2 and "(" not in e2.split("{")[0]:
+            i = e2.find("{")
+            e2 = e2[:i] + "(" + e2[i + 1:-1] + ")"
+        sc = split_call(e2)
+        if sc is None:
+            # strip projections `X.0@Some.0`
+            m = re.match(r"^(.*[)}])[.@\w]+$", e)
+            if m:
+                st.append(m.group(1))
+            continue
+        out.append(sc)
+        st.extend(sc[1])
+    return out
+
+
+def asm_ignorer_marks(prog, rep, R, R2):
+    """The asm ignorer: (C07.d) it visits exactly the lines whose type is AsmInstruction and marks every token of each; every mark it
+    makes is made for such a line.  (C07.i) it also marks the closed span first..=last of the line: conditional directives written
+    inside an instruction, and the tokens of the branch they exclude, are on other logical lines (ConditionalDirective lines, the
+    instruction line of the other parse) and would otherwise be moved to lines of their own and re-cased."""
+    ia = "<pasfmt_core::rules::ignore_asm_instructions::IgnoreAsmIstructions as pasfmt_core::traits::TokenIgnorer>::ignore_tokens"
+    b = prog.body(ia)
+    if not rep.check(b is not None, R, "anchor:IgnoreAsmIstructions", "IgnoreAsmIstructions::ignore_tokens not found"):
+        return
+    fam = [b] + [x for x in prog.bodies.values() if x.npath.startswith(ia + "::")]
+    MARK = FMT + "TokenMarker::mark"
+
+    def clos(body, a):
+        return body.locals[a["place"]["l"]].get("closure") if a["k"] in ("copy", "move") and not a["place"]["p"] else None
+    # the line filter
+    flt = [c for c in b.calls() if (c.callee or "").endswith("Iterator::filter")]
+    fe = [c for c in b.calls() if (c.callee or "").endswith("Iterator::for_each")]
+    ok = len(flt) == 1 and len(fe) == 1
+    f0 = prog.body(clos(b, flt[0].args[1]) or "") if ok else None
+    per_line = prog.body(clos(b, fe[0].args[1]) or "") if ok else None
+    ok = ok and f0 is not None and per_line is not None and canon(b, fe[0].args[0]).startswith("filter(iter(arg2.1)")
+    if ok:
+        consts = [v for a, v in enum_variants_mentioned(f0) if a.endswith("LogicalLineType")]
+        ok = consts == ["AsmInstruction"] and any((c.target or "").endswith("PartialEq>::eq") or (c.callee or "") == "core::cmp::PartialEq::eq" for c in f0.calls()) \
+            and not any((c.callee or "").endswith("::ne") or (c.callee or "").endswith("Not::not") for c in f0.calls())
+    rep.check(ok, R, "asm:visits-exactly-the-asm-lines", "IgnoreAsmIstructions no longer visits exactly the lines whose type is AsmInstruction (lines.iter().filter(type == AsmInstruction).for_each(..))",
+              where="%s:%d" % (b.file, b.line), instance={"filter": "line_type == AsmInstruction"})
+    # every mark call of the family is made inside the per-line closure (or a closure of it)
+    marks = [(x, c) for x in fam for c in x.calls() if c.callee == MARK]
+    outside = [short(x.npath) for x, c in marks if per_line is None or not (x.npath == per_line.npath or x.npath.startswith(per_line.npath + "::"))]
+    rep.check(not outside, R, "asm:marks-only-for-asm-lines", "IgnoreAsmIstructions marks tokens outside its per-asm-line closure: %s" % outside, instance={"mark_sites": len(marks)})
+    rep.floor(R, "mark sites of the asm ignorer", len(marks), 1)
+    if per_line is None:
+        return
+    # what is iterated with a marking closure
+    iterated = []
+    for c in per_line.calls():
+        if (c.callee or "").endswith("Iterator::for_each") and len(c.args) == 2:
+            k = prog.body(clos(per_line, c.args[1]) or "")
+            if k is not None and any(c2.callee == MARK and canon(k, c2.args[1]) in ("arg2", "deref(arg2)", "*arg2") for c2 in k.calls()):
+                iterated.append((c, canon(per_line, c.args[0])))
+    for c in per_line.calls():                          # `for t in X { marker.mark(t) }`
+        if c.callee == MARK:
+            m = re.match(r"^\*?next\(into_iter\((.+)\)\)@Some\.0$", canon(per_line, c.args[1]))
+            if m:
+                iterated.append((c, m.group(1)))
+    every = [x for _, x in iterated if re.match(r"^(iter|into_iter)\(deref\(get_tokens\(arg2\)\)\)$", x) or x == "deref(get_tokens(arg2))" or x == "get_tokens(arg2)"]
+    rep.check(bool(every), R, "asm:marks-every-token-of-asm-lines", "IgnoreAsmIstructions no longer marks every token of the AsmInstruction line (iterated with a marking closure: %s)" % [x[:80] for _, x in iterated],
+              where="%s:%d" % (per_line.file, per_line.line), instance={"iterated": [x[:160] for _, x in iterated]})
+    span = []
+    for c, x in iterated:
+        for name, args in _subterms(x):
+            if name.split("::")[-1] in ("new", "RangeInclusive") and len(args) >= 2 and "first(deref(get_tokens(" in args[0] and "last(deref(get_tokens(" in args[1]:
+                span.append(c)
+    rep.check(bool(span), R2, "asm:marks-the-closed-span-of-the-line",
+              "IgnoreAsmIstructions marks only the tokens listed in the AsmInstruction line, not the span first..=last: a conditional directive written inside an instruction (and the excluded branch) "
+              "is on a logical line of its own, is formatted (own line, upper-cased) and the instruction line is not emitted byte for byte",
+              where="%s:%d" % (per_line.file, per_line.line), instance={"iterated": [x[:160] for _, x in iterated]})
 
 
 def asm_lines_typed(prog, rep, R):
